@@ -469,7 +469,7 @@ def run_pair(ctx, ca, cb, direction, inplace, alias, x):
             for nm, op in (("receiver", a), ("argument", b)):
                 sh = digest.shared_buffers(r, op, skip=_CACHE)
                 ctx.expect(not sh, "result_shares_buffer_with_%s" % nm, lambda: repr(sh[:4]))
-            r.h_matrix[...] += 1.0
+            r.h_matrix[...] += 1
         expect_unchanged(ctx, a, da, "operand_changed_by_editing_result.receiver")
         if not alias:
             expect_unchanged(ctx, b, db, "operand_changed_by_editing_result.argument")
@@ -896,7 +896,7 @@ def c_decompose(case, ctx):
     # the factors own their parameters
     for p in parts:
         if isinstance(p, Homogeneous):
-            p.h_matrix[...] += 1.0
+            p.h_matrix[...] += 1
     expect_unchanged(ctx, t, d0, "decompose.factor_shares_buffer_with_the_transform")
     ctx.nontrivial(tc["kind"] in FOUR_FACTOR and len(parts) == 4 and not is_identity_stages(stages))
 
